@@ -24,6 +24,7 @@ func handValues() []cty.Value {
 		cty.NullVal(cty.DynamicPseudoType), cty.NullVal(cty.String), cty.NullVal(cty.List(cty.Number)), cty.NullVal(cty.EmptyObject),
 		cty.EmptyObjectVal, cty.EmptyTupleVal, cty.ListValEmpty(cty.String), cty.SetValEmpty(cty.Number), cty.MapValEmpty(cty.Bool),
 		cty.MapVal(map[string]cty.Value{"": cty.True, "a b": cty.False, "1": cty.True, "a.b": cty.True, "${x}": cty.False}),
+		cty.MapVal(map[string]cty.Value{"\ufeffkey": cty.True}), cty.ObjectVal(map[string]cty.Value{"a": cty.True, "\ufeff": cty.True, "\ufeffb-c": cty.False}),
 		cty.NumberIntVal(0), cty.NumberIntVal(-1), cty.MustParseNumberVal("1e400"), cty.MustParseNumberVal("-1e-400"), cty.MustParseNumberVal("0.1"),
 		cty.NumberFloatVal(0.5), cty.NumberFloatVal(0.1),
 	)
